@@ -2,8 +2,8 @@ package sim
 
 import (
 	"fmt"
-	"sort"
 	"math/big"
+	"sort"
 
 	sdk "github.com/cosmos/cosmos-sdk/types"
 
